@@ -6,14 +6,14 @@ import json, os, re, shutil, subprocess, sys
 ROOT = os.path.dirname(os.path.dirname(os.path.abspath(__file__)))
 ENV = dict(os.environ, GOFLAGS="-mod=mod", GOPROXY="off", GOSUMDB="off", GOTOOLCHAIN="local")
 def sh(cmd, cwd):
-    p = subprocess.run(cmd, cwd=cwd, env=ENV, stdout=subprocess.PIPE, stderr=subprocess.STDOUT, text=True, timeout=1800)
+    p = subprocess.run(cmd, cwd=cwd, env=ENV, stdout=subprocess.PIPE, stderr=subprocess.STDOUT, text=True, errors='replace', timeout=1800)
     return p.returncode, p.stdout
 prop, k, sid, needs = sys.argv[1:5]
 wt = sys.argv[5] if len(sys.argv) > 5 else "/tmp/wt-" + prop
 src = "/tmp/mut-%s/%s" % (prop, k)
 patch = os.path.join(src, "patch.diff")
 demo = os.path.join(src, "demo_test.go")
-first = open(demo).readline()
+first = open(demo, errors='replace').readline()
 m = re.search(r"place in:\s*(\S+)", first)
 pkgdir = m.group(1).strip("`'\"") if m else "."
 pkgdir = pkgdir.rstrip("/") or "."
